@@ -158,7 +158,13 @@ def run_case(case, mon):
             i = s.find("INTERVAL ")
             j = s.find(" FROM ")
             outs.append(("embedded", s[i:j] if i >= 0 and j > i else s))
-            mon.count("embedded_renders")
+            # ... and as a function argument, nested in another function
+            q2 = reg[dname].from_(t).select(reg["fn.Coalesce"](reg["Function"]("DATE_ADD", t.a, iv), t.b))
+            s2 = q2.get_sql()
+            i2 = s2.find("INTERVAL ")
+            j2 = s2.find("),", i2)
+            outs.append(("function-argument", s2[i2:j2] if i2 >= 0 and j2 > i2 else s2))
+            mon.count("embedded_renders", 2)
         for where, sql in outs:
             mon.count("renders")
             got = read_literal(sql, dname in FORM_A)
